@@ -86,14 +86,17 @@ def body_without(stmts, skip_targets):
     return out
 
 
-def split_accept(where, accept):
-    """acceptance mask  u < ratio  ->  (ratio, the exponential inside it)"""
-    if not (is_cond(accept) and accept[0] == "lt" and accept[1] == ("s", "u")):
-        raise TranslationError("%s: the acceptance mask is not `ratio > uniform random number`" % where)
-    ratio = accept[2]
-    exps = find_nodes(ratio, "exp")
+def split_accept(where, accept, need_ratio=True):
+    """acceptance mask -> (ratio or None, the exponential inside the mask). The mask is `u < ratio`, possibly conjoined with further conditions
+    (e.g. the fixed-node test written as `accept &= wfratio > 0`); the ratio is reported only for the plain form"""
+    if not is_cond(accept):
+        raise TranslationError("%s: the acceptance mask is not a comparison" % where)
+    exps = find_nodes(accept, "exp")
     if len(exps) != 1:
-        raise TranslationError("%s: the acceptance ratio contains %d exponentials, expected the one of the proposal densities" % (where, len(exps)))
+        raise TranslationError("%s: the acceptance test contains %d exponentials, expected the one of the proposal densities" % (where, len(exps)))
+    ratio = accept[2] if (accept[0] == "lt" and accept[1] == ("s", "u")) else None
+    if ratio is None and need_ratio:
+        raise TranslationError("%s: the acceptance mask is not `ratio > uniform random number`" % where)
     return ratio, exps[0]
 
 
@@ -171,11 +174,10 @@ def gen(repo):
         if not (isinstance(ret, tuple) and len(ret) == 4 and not (ret and isinstance(ret[0], str))):
             raise TranslationError("propose_drift_diffusion: unexpected return value")
         # roles: (proposed position, acceptance mask, squared displacement, saved values)
-        ratio, t_prob = split_accept("propose_drift_diffusion", ret[1])
+        ratio, t_prob = split_accept("propose_drift_diffusion", ret[1], need_ratio=False)
         emit("dd_eposnew" + sfx, ret[0])
         emit("dd_lnT_arg" + sfx, t_prob[1])
         emit("dd_t_prob" + sfx, t_prob)
-        emit("dd_ratio" + sfx, ratio)
         emit("dd_accept" + sfx, ret[1])
         emit("dd_r2" + sfx, ret[2])
         emit("dd_proposal_scale" + sfx, se.notes["proposal_scale"])
